@@ -50,60 +50,91 @@ def _init_worker(dn_pairs=()):
     _W.update(sd=sd, conv=conv, dn=dict(dn_pairs))
 
 
-def _note(acc, sig, example):
-    e = acc.setdefault(sig, [0, []])
+def _note(acc, sig, inst, **more):
+    """Count one failure; keep the first few as examples (inst = (y, m, d, sod) or a dict)."""
+    e = acc.get(sig)
+    if e is None:
+        e = acc[sig] = [0, []]
     e[0] += 1
     if len(e[1]) < MAX_EX:
-        e[1].append(example)
+        ex = dict(zip(("y", "m", "d", "sod"), inst)) if isinstance(inst, tuple) else dict(inst)
+        ex.update(more)
+        e[1].append(ex)
 
 
 def _instant(acc, y, m, d, dn, doy, sod, extras, ref, inverse=True):
-    """Replay one instant of the spec into the real conversion functions; returns its JD."""
+    """Replay one instant of the spec into the real conversion functions; returns its JD.
+
+    An exception raised by a conversion function on a valid instant is a failure of that
+    function (signature <function>-raised-<type>), not of the driver."""
     sd, conv, dnmap = _W["sd"], _W["conv"], _W["dn"]
     h, r = divmod(sod, 3600)
     mi, s = divmod(r, 60)
     frac = sod / 86400.0
     base = dn + cal.JD_OF_DN0
-    inst = {"y": y, "m": m, "d": d, "sod": sod}
-    jd = sd.JulianDate.getJulianDate(y, m, d, h, mi, s)
-    jdf = float(jd)
+    inst = (y, m, d, sod)
+    try:
+        jd = sd.JulianDate.getJulianDate(y, m, d, h, mi, s)
+        jdf = float(jd)
+    except Exception as ex:  # noqa: BLE001
+        _note(acc, f"getJulianDate-raised-{type(ex).__name__}", inst, error=str(ex))
+        return sd.JulianDate(base + frac)
     if not abs((jdf - base) - frac) <= cal.JD_TOL:
-        _note(acc, "getJulianDate-differs-from-day-number", {**inst, "got": jdf, "expected": base + frac})
+        _note(acc, "getJulianDate-differs-from-day-number", inst, got=jdf, expected=base + frac)
     if inverse or extras:
         dtm = datetime(y, m, d, h, mi, s)
-        back = sd.julianDateToDatetime(jd)
+        try:
+            back = sd.julianDateToDatetime(jd)
+        except Exception as ex:  # noqa: BLE001
+            back = dtm
+            _note(acc, f"julianDateToDatetime-raised-{type(ex).__name__}", inst, error=str(ex))
         if back != dtm:
             late = (back - dtm).total_seconds()
             sig = "julianDateToDatetime-one-second-early" if late == -1.0 else "julianDateToDatetime-wrong-instant"
-            _note(acc, sig, {**inst, "got": back.isoformat(), "expected": dtm.isoformat()})
+            _note(acc, sig, inst, got=back.isoformat(), expected=dtm.isoformat())
     if ref is not None:     # scenario seconds relative to an earlier instant of the same task
         jd0, dn0, sod0 = ref
         off = (dn - dn0) * 86400 + sod - sod0
-        got = float(jd.convertToScenarioTime(jd0))
-        if not abs(got - off) <= cal.SEC_TOL:
-            _note(acc, "convertToScenarioTime-offset-off", {**inst, "ref": [dn0, sod0], "got": got, "expected": off})
-        if extras:
-            jd_fwd = float(sd.ScenarioTime(off).convertToJulianDate(jd0))
-            if not abs((jd_fwd - base) - frac) <= cal.JD_TOL:
-                _note(acc, "convertToJulianDate-offset-off", {**inst, "ref": [dn0, sod0], "got": jd_fwd})
-            elif not abs(float(sd.JulianDate(jd_fwd).convertToScenarioTime(jd0)) - off) <= cal.SEC_TOL:
-                _note(acc, "scenario-offset-round-trip-off", {**inst, "ref": [dn0, sod0]})
+        try:
+            got = float(jd.convertToScenarioTime(jd0))
+            if not abs(got - off) <= cal.SEC_TOL:
+                _note(acc, "convertToScenarioTime-offset-off", inst, ref=[dn0, sod0], got=got, expected=off)
+            if extras:
+                jd_fwd = float(sd.ScenarioTime(off).convertToJulianDate(jd0))
+                if not abs((jd_fwd - base) - frac) <= cal.JD_TOL:
+                    _note(acc, "convertToJulianDate-offset-off", inst, ref=[dn0, sod0], got=jd_fwd)
+                elif not abs(float(sd.JulianDate(jd_fwd).convertToScenarioTime(jd0)) - off) <= cal.SEC_TOL:
+                    _note(acc, "scenario-offset-round-trip-off", inst, ref=[dn0, sod0])
+        except Exception as ex:  # noqa: BLE001
+            _note(acc, f"scenario-time-conversion-raised-{type(ex).__name__}", inst, error=str(ex))
     if extras:
-        jd2 = float(sd.datetimeToJulianDate(dtm))
-        if jd2 != jdf and not abs((jd2 - base) - frac) <= cal.JD_TOL:
-            _note(acc, "datetimeToJulianDate-differs-from-day-number", {**inst, "got": jd2})
-        cy, cm, cd, ch, cmi, cs = jd.calendar_date
-        g = dnmap.get((int(cy), int(cm), int(cd)))
-        if g is None or not abs((g - dn) * 86400 + (float(ch) * 3600 + float(cmi) * 60 + float(cs)) - sod) <= cal.SEC_TOL:
-            _note(acc, "calendar_date-wrong-instant",
-                  {**inst, "got": [int(cy), int(cm), int(cd), float(ch), float(cmi), float(cs)]})
-        doyf = float(conv.dayOfYear(y, m, d, h, mi, s))
-        if not abs((doyf - doy) - frac) <= cal.JD_TOL:
-            _note(acc, "dayOfYear-differs-from-spec", {**inst, "got": doyf, "expected": doy + frac})
-        mo, dd, hh, mm_, ss = sd.days2mdh(y, doy + frac)
-        g = dnmap.get((y, int(mo), int(dd)))
-        if g is None or not abs((g - dn) * 86400 + (float(hh) * 3600 + float(mm_) * 60 + float(ss)) - sod) <= cal.SEC_TOL:
-            _note(acc, "days2mdh-wrong-instant", {**inst, "got": [int(mo), int(dd), float(hh), float(mm_), float(ss)]})
+        try:
+            jd2 = float(sd.datetimeToJulianDate(dtm))
+            if jd2 != jdf and not abs((jd2 - base) - frac) <= cal.JD_TOL:
+                _note(acc, "datetimeToJulianDate-differs-from-day-number", inst, got=jd2)
+        except Exception as ex:  # noqa: BLE001
+            _note(acc, f"datetimeToJulianDate-raised-{type(ex).__name__}", inst, error=str(ex))
+        try:
+            cy, cm, cd, ch, cmi, cs = jd.calendar_date
+            g = dnmap.get((int(cy), int(cm), int(cd)))
+            if g is None or not abs((g - dn) * 86400 + (float(ch) * 3600 + float(cmi) * 60 + float(cs)) - sod) <= cal.SEC_TOL:
+                _note(acc, "calendar_date-wrong-instant",
+                      inst, got=[int(cy), int(cm), int(cd), float(ch), float(cmi), float(cs)])
+        except Exception as ex:  # noqa: BLE001
+            _note(acc, f"calendar_date-raised-{type(ex).__name__}", inst, error=str(ex))
+        try:
+            doyf = float(conv.dayOfYear(y, m, d, h, mi, s))
+            if not abs((doyf - doy) - frac) <= cal.JD_TOL:
+                _note(acc, "dayOfYear-differs-from-spec", inst, got=doyf, expected=doy + frac)
+        except Exception as ex:  # noqa: BLE001
+            _note(acc, f"dayOfYear-raised-{type(ex).__name__}", inst, error=str(ex))
+        try:
+            mo, dd, hh, mm_, ss = sd.days2mdh(y, doy + frac)
+            g = dnmap.get((y, int(mo), int(dd)))
+            if g is None or not abs((g - dn) * 86400 + (float(hh) * 3600 + float(mm_) * 60 + float(ss)) - sod) <= cal.SEC_TOL:
+                _note(acc, "days2mdh-wrong-instant", inst, got=[int(mo), int(dd), float(hh), float(mm_), float(ss)])
+        except Exception as ex:  # noqa: BLE001
+            _note(acc, f"days2mdh-raised-{type(ex).__name__}", inst, error=str(ex))
     return jd
 
 
@@ -154,10 +185,10 @@ def _sweep(task):
                 y, m, d, dn, doy = nxt
                 sod = 0
             # every second: forward conversion, monotonicity, offset; the inverse on every second
-            # of the hours next to midnight and noon and on 2 of 7 seconds elsewhere (7 is coprime
+            # of the hours next to midnight and noon and on every 7th second elsewhere (7 is coprime
             # to 60, so every second of the minute is met); all other functions on a thinner grid
             extras = sod % 60 in (0, 59) or sod % 97 == 0
-            inverse = dense or sod < 3600 or sod >= 82800 or 39600 <= sod < 46800 or sod % 7 in (0, 3)
+            inverse = dense or sod < 3600 or sod >= 82800 or 39600 <= sod < 46800 or sod % 7 == 0
             jd = _instant(acc, y, m, d, dn, doy, sod, extras, ref, inverse)
             jdf = float(jd)
             if prev is not None and not jdf > prev[0]:
@@ -465,7 +496,7 @@ def run(ctx: Ctx):
         tup = [(r["y"], r["m"], r["d"], r["dn"], r["doy"]) for r in days]
         # -- spec -> impl sweep of instants
         tasks = []
-        n_sod = 5 if quick else 40
+        n_sod = 4 if quick else 40
         chunk = 300 if quick else 60
         for a in range(0, len(tup), chunk):
             tasks.append({"kind": "sparse", "id": len(tasks), "days": tup[a:a + chunk], "seed": ctx.seed, "n": n_sod,
@@ -475,7 +506,7 @@ def run(ctx: Ctx):
         for j, i in enumerate(bidx):      # the day whose END is the boundary, and the second just after it
             nxt = tup[i + 1] if i + 1 < len(tup) else None
             for h0 in range(0, 24, hours):
-                tasks.append({"kind": "full", "id": len(tasks), "day": tup[i], "next": nxt, "dense": (not quick) or j % 8 == 0,
+                tasks.append({"kind": "full", "id": len(tasks), "day": tup[i], "next": nxt, "dense": (not quick) or j % 16 == 0,
                               "lo": h0 * 3600, "hi": (h0 + hours) * 3600, "dn": _dn_of(tup, i, i + 1)})
         results = {r["id"]: r for r in pool.imap_unordered(_dispatch, tasks, chunksize=1)}
         phase["instants_swept"] = round(time.time() - t0, 1)
@@ -521,7 +552,7 @@ def run(ctx: Ctx):
     _merge(total_acc, acc)
     ctx.traces_validated += len(ticks)
     for sig, (n, exs) in sorted(total_acc.items()):
-        ctx.violation(sig, f"{n} of {inverted + 2 * len(ticks)} replayed instants: {sig}; e.g. {json.dumps(exs[0])}",
+        ctx.violation(sig, f"{n} of {inverted + 2 * len(ticks)} replayed instants: {sig}; e.g. {json.dumps(exs[0], default=str)}",
                       {"kind": "instant", "count": n, "examples": exs})
     ctx.extra["instants_replayed"] = instants
     ctx.extra["instants_inverted"] = inverted
@@ -550,10 +581,10 @@ def run(ctx: Ctx):
     # spec -> impl cross-check of the same runs: TLC's expected counts/epochs vs what was recorded
     for i, (r, tr) in enumerate(zip(runs, traces), start=1):
         agree = r["counts"] == r["expect_counts"] and tr["rows"] == [0] + [1000 * e for e in r["expect_epochs"]]
-        if agree and i not in accepted or (not agree and i not in rejected):
-            raise tlc.MachineryError(f"trace verdict and TLC's expected counts disagree for {r['start']} {r['reqs']} {r['via']}: "
-                                     f"counts {r['counts']} expected {r['expect_counts']} rows {tr['rows']} "
-                                     f"accepted={i in accepted}")
+        if not agree and i not in rejected:     # (an accepted trace always agrees; a rejected one may agree here
+            #                                      and fail another clause, e.g. the Julian date of the clock)
+            raise tlc.MachineryError(f"trace accepted although TLC's expected counts/epochs differ for {r['start']} "
+                                     f"{r['reqs']} {r['via']}: counts {r['counts']} expected {r['expect_counts']} rows {tr['rows']}")
     phase["trace_validation"] = round(time.time() - t0, 1)
     ctx.extra["phase_done_at_s"] = phase
     ctx.extra["timed_runs"] = len(dur_tasks)
@@ -584,7 +615,7 @@ def replay(ctx: Ctx, rp: dict):
             ctx.case(("replay-day", r["dn"]))
         ctx.traces_validated += len(rep["examples"])
         for sig, (n, exs) in sorted(acc.items()):
-            ctx.violation(sig, f"{n} replayed instants: {sig}; e.g. {json.dumps(exs[0])}",
+            ctx.violation(sig, f"{n} replayed instants: {sig}; e.g. {json.dumps(exs[0], default=str)}",
                           {"kind": "instant", "count": n, "examples": exs})
         return None
     t = {"kind": "duration", "id": 0, "start": rep["start"], "dt": rep["dt"], "reqs": rep["reqs"],
